@@ -46,12 +46,20 @@ func (g *G) genBurnTx() *world.TxStep {
 	burn, _ := sdk.AccAddressFromBech32(world.BurnAddress)
 	var msg sdk.Msg
 	note := ""
-	kind := g.weighted("burn-kind", "send", 10, "multisend", 3, "vesting", g.bias("vesting", 3), "permlock", g.bias("vesting", 3)/2+1, "periodic", g.bias("vesting", 3)/2+1)
+	kind := g.weighted("burn-kind", "send", 10, "to-module-account", 2, "multisend", 3, "vesting", g.bias("vesting", 3), "permlock", g.bias("vesting", 3)/2+1, "periodic", g.bias("vesting", 3)/2+1)
 	if w.Opt.Open["C07-vesting-burn-address"] && kind != "send" && kind != "multisend" {
 		w.Excluded["C07-vesting-burn-address"]++
 		kind = "send"
 	}
 	switch kind {
+	case "to-module-account":
+		// module accounts are blocked recipients; the burn module's own staging account exists
+		// only after the first burn. (gov is deliberately receivable, as in the SDK's simapp, and
+		// a direct transfer to it makes the SDK's gov InitGenesis refuse the exported genesis:
+		// upstream behaviour, not generated)
+		mod := pick(g, "module-account", []string{"burn", "burn", "fee_collector", "distribution", "mint", "bonded_tokens_pool"})
+		msg = banktypes.NewMsgSend(w.Accts[from].Addr, authtypes.NewModuleAddress(mod), g.coinsFor("send"))
+		note = "send-to-module-account-" + mod
 	case "send":
 		msg = banktypes.NewMsgSend(w.Accts[from].Addr, burn, g.coinsFor("send"))
 		note = "send-to-burn"
